@@ -75,6 +75,10 @@ def oracle(sc, tr, extra):
                     out.append("Ping %r was not answered by a Pong before its event was handed to the application" % (x["fields"][0][:20],))
                 elif prev["frame"]["payload"] != x["fields"][0]:
                     out.append("Pong payload %r differs from Ping payload %r" % (prev["frame"]["payload"][:20], x["fields"][0][:20]))
+    # every generated stream is a conforming one: a ProtocolError means that a Ping (and all that follows) was lost
+    if any(x["kind"] == "ev" and x["code"] == 13 for x in tl):
+        npi = len([x for x in tl if x["kind"] == "ev" and x["code"] == 8])
+        out.append("a ProtocolError was raised for a conforming stream with %d Pings, %d of them were delivered: the others were neither delivered nor answered" % (sc["_npings"], npi))
     # the event stream is not disturbed by pongs that cannot be written
     if sc["_tail"] in ("eof", "server_close_then_pings") and not any(x["kind"] == "ev" and x["code"] == 13 for x in tl):
         got = [[x["code"]] + x["fields"] for x in tl if x["kind"] == "ev" and x["code"] in (6, 7, 8, 9)]
